@@ -117,6 +117,11 @@ def single_return(func: FuncInfo):
     body = [s for s in func.node.body if not (isinstance(s, ast.Expr) and isinstance(s.value, ast.Constant))]
     if len(body) == 1 and isinstance(body[0], ast.Return) and body[0].value is not None:
         return body[0].value
+    # refusals first (`if <test>: raise ...`), then the one return: the returned expression is still the meaning
+    if len(body) > 1 and isinstance(body[-1], ast.Return) and body[-1].value is not None \
+            and all(isinstance(s, ast.If) and not s.orelse and len(s.body) >= 1 and isinstance(s.body[-1], ast.Raise)
+                    and not any(isinstance(x, (ast.Return, ast.Assign, ast.AugAssign)) for x in ast.walk(s)) for s in body[:-1]):
+        return body[-1].value
     return None
 
 
